@@ -507,14 +507,17 @@ def fields(line):
 # ---------------------------------------------------------------------------------------------
 # op sequences for the arena model correspondence (harness/h_arena.c vs lean/Driver/Arena.lean)
 
-def gen_ops(r, cid):
+def gen_ops(r, cid, growth=True):
     """One case line. The generator keeps its own picture of the arena so that the sequence stays
     inside the protocol the theorems assume (registered slots hold null or a pointer to used bytes,
     nothing else overwrites a slot) except for a few deliberate probes at the end of a line."""
     n = r.choice([1, 2, 2, 3, 4, 12])
     init = r.choice([1, 1, 2, 3, 8, 16, 64, 1024])
+    move = r.random() < 0.3
+    if not growth:       # C17: the loader is the subject; keep the fix-up loop of the growth path out of the picture
+        init, move = 1 << 16, False
     ops = ["create:%d:%d" % (n, init)]
-    if r.random() < 0.3:
+    if move:
         ops.append("move:1")
     used = [0] * n
     kind = [r.choice("rz") for _ in range(n)]       # raw buffers (write_data) / zeroed buffers (structs)
@@ -691,12 +694,12 @@ def ops_agree(impl, model):
     return True, "equal"
 
 
-def ops_tie(chk, b, n, tag, replay_case=None):
+def ops_tie(chk, b, n, tag, replay_case=None, growth=True):
     """op-sequence correspondence of the Lean arena model with arena.c. Returns (found, cov, ub_seen)."""
     import collections, re
     from vf import core
     r = core.rng(tag)
-    gen = [gen_ops(r, "a%d" % i) for i in range(n)]
+    gen = [gen_ops(r, "a%d" % i, growth) for i in range(n)]
     cases = [g[0] for g in gen]
     if replay_case:
         cases = [replay_case]
